@@ -55,7 +55,7 @@ def rule_eol(model):
                 v = compiled(n.func.value)
                 if v is not None:
                     pat, pname = v, n.func.value.id
-    if pat is None:
+    def hand_scan():
         # a hand-written scan: what it calls blank must be blank or tab
         text_p = fi.params()[1] if len(fi.params()) > 1 else None
         scans = []
@@ -84,6 +84,8 @@ def rule_eol(model):
                           'block tag are dropped instead of being '
                           'reproduced', node=n, ctx=fi)
         return r
+    if pat is None:
+        return hand_scan()
     inc, wit = regexa.included(pat, REFERENCE)
     r.instance(fi.where, repr(pat), 'subset of [ \\t]*\\n' if inc
                else f'accepts {wit!r}')
@@ -110,7 +112,7 @@ def rule_eol(model):
             r.finding(fi.where, u, 'the pattern is not matched at the '
                       'cursor position', node=u, ctx=fi)
     if not uses:
-        raise AnalysisError('skip_eol: pattern use not found')
+        return hand_scan()
     # the cursor advances by the match length only
     start = fi.params()[2]
     rets = [n for n in own_nodes(fi.node) if isinstance(n, ast.Return)]
